@@ -1,11 +1,143 @@
+import OdmlModel.Model.DTypes
 import Driver.Util
 import Driver.Loop
 open Lean Drv
 
 namespace DrvC05
+open DT Py
 
-/-- Stub: replaced when the model of C05 is built. -/
-def handle (_j : Json) : Except String Json := throw "model of C05 not built"
+def getNats (j : Json) (k : String) : Except String (List Nat) := do
+  let a ← getArr j k
+  a.toList.mapM (fun x => match x with
+    | .num n => if n.exponent == 0 && n.mantissa ≥ 0 then pure n.mantissa.toNat else throw "bad nat"
+    | _ => throw "bad nat")
+
+def decAtom (j : Json) : Except String Atom :=
+  match j with
+  | .null => pure .none
+  | .bool b => pure (.bool b)
+  | .num n => if n.exponent == 0 then pure (.int n.mantissa) else throw "non-int number"
+  | .str s => pure (.str s.toList)
+  | .obj _ => do
+    if let .ok r := getStr j "f" then
+      match parseFloat r.toList with
+      | some f => return .float f
+      | none => throw s!"bad float {r}"
+    if let .ok [y, m, d] := getNats j "d" then return .date ⟨y, m, d⟩
+    if let .ok [h, mi, s, us] := getNats j "t" then return .time ⟨h, mi, s, us⟩
+    if let .ok [y, m, d, h, mi, s, us] := getNats j "dt" then return .datetime ⟨⟨y, m, d⟩, ⟨h, mi, s, us⟩⟩
+    if let .ok t := getStr j "o" then return .dict t.toList
+    throw "bad atom"
+  | .arr _ => throw "bad atom (array)"
+
+def decElem (j : Json) : Except String Elem := do
+  if let .ok xs := getArr j "l" then return .seq false (← xs.toList.mapM decAtom)
+  if let .ok xs := getArr j "tu" then return .seq true (← xs.toList.mapM decAtom)
+  return .atom (← decAtom j)
+
+def decInp (j : Json) : Except String Inp := do
+  if let .ok xs := getArr j "l" then return .seq false (← xs.toList.mapM decElem)
+  if let .ok xs := getArr j "tu" then return .seq true (← xs.toList.mapM decElem)
+  return .one (← decAtom j)
+
+def decDtIn (j : Json) : Except String DtIn :=
+  match j with
+  | .null => pure .none
+  | .str s => pure (.str s.toList)
+  | _ => pure .other
+
+def decDType (j : Json) : Except String DType :=
+  match j with
+  | .null => pure none
+  | .str s => pure (some s.toList)
+  | _ => throw "bad dtype"
+
+def decNow (j : Json) : Except String DateTime := do
+  match ← getNats j "now" with
+  | [y, m, d, h, mi, s] => pure ⟨⟨y, m, d⟩, ⟨h, mi, s, 0⟩⟩
+  | _ => throw "bad now"
+
+def encAtom : Atom → Json
+  | .none => Json.null
+  | .bool b => jbool b
+  | .int i => jint i
+  | .float f => jobj [("f", jchars f.repr)]
+  | .str s => jchars s
+  | .date d => jobj [("d", jarr [jnat d.y, jnat d.m, jnat d.d])]
+  | .time t => jobj [("t", jarr [jnat t.h, jnat t.mi, jnat t.s, jnat t.us])]
+  | .datetime x => jobj [("dt", jarr [jnat x.date.y, jnat x.date.m, jnat x.date.d,
+                                      jnat x.time.h, jnat x.time.mi, jnat x.time.s, jnat x.time.us])]
+  | .dict t => jobj [("o", jchars t)]
+
+def encElem : Elem → Json
+  | .atom a => encAtom a
+  | .seq false xs => jobj [("l", jarr (xs.map encAtom))]
+  | .seq true xs => jobj [("tu", jarr (xs.map encAtom))]
+
+def excName : Exc → String
+  | .value => "ValueError"
+  | .type => "TypeError"
+  | .attr => "AttributeError"
+  | .index => "IndexError"
+  | .overflow => "OverflowError"
+
+def encR : R Elem → Json
+  | .ok v => jobj [("ok", encElem v)]
+  | .error e => jobj [("raised", excName e)]
+
+def encDType : DType → Json
+  | none => Json.null
+  | some d => jchars d
+
+def encOutcome : Outcome → Json
+  | .ok => jstr "ok"
+  | .raised e => jstr (excName e)
+
+def encState (s : PropState) (o : Outcome) : Json :=
+  jobj [("outcome", encOutcome o), ("values", jarr (s.values.map encElem)), ("dtype", encDType s.dtype)]
+
+def decOp (j : Json) : Except String Op := do
+  let k ← getStr j "k"
+  match k with
+  | "values" => pure (.setValues (← decInp (← getVal j "v")))
+  | "dtype" => pure (.setDtype (← decDtIn (← getVal j "d")))
+  | "append" => pure (.append (← decInp (← getVal j "v")) (← getBool j "strict"))
+  | "extend" => pure (.extend (← decInp (← getVal j "v")) (← getBool j "strict"))
+  | "extend_prop" =>
+    pure (.extendProp (← (← getArr j "vals").toList.mapM decElem) (← getBool j "same_unit"))
+  | "insert" => pure (.insert (← getInt j "i") (← decInp (← getVal j "v")) (← getBool j "strict"))
+  | "setitem" => pure (.setItem (← getInt j "i") (← decElem (← getVal j "v")))
+  | "remove" => pure (.remove (← decElem (← getVal j "v")))
+  | "merge" =>
+    pure (.merge (← (← getArr j "vals").toList.mapM decElem) (← decDType (← getVal j "d"))
+      (← getBool j "strict"))
+  | "clone" => pure .clone
+  | _ => throw s!"unknown op kind {k}"
+
+def runTrace (now : DateTime) : PropState → List Op → List Json
+  | _, [] => []
+  | s, op :: ops =>
+    let r := step now s op
+    encState r.1 r.2 :: runTrace now r.1 ops
+
+def handle (j : Json) : Except String Json := do
+  let op ← getStr j "op"
+  match op with
+  | "valid_type" => pure (jbool (validType (← decDtIn (← getVal j "d"))))
+  | "infer" => pure (jchars (inferDtype (← decElem (← getVal j "v"))))
+  | "get" =>
+    pure (encR (get (← decNow j) (← decElem (← getVal j "v")) (← decDType (← getVal j "d"))))
+  | "set" =>
+    pure (encR (set (← decNow j) (← decElem (← getVal j "v")) (← decDType (← getVal j "d"))))
+  | "history" =>
+    let now ← decNow j
+    let c ← getVal j "ctor"
+    let ops ← (← getArr j "ops").toList.mapM decOp
+    match ctor now (← decDtIn (← getVal c "d")) (← decInp (← getVal c "values"))
+        (← decInp (← getVal c "value")) with
+    | .error e => pure (jobj [("ctor", jstr (excName e)), ("trace", jarr [])])
+    | .ok s0 => pure (jobj [("ctor", jstr "ok"), ("trace", jarr (encState s0 .ok :: runTrace now s0 ops))])
+  | _ => throw s!"unknown op {op}"
 
 end DrvC05
 
